@@ -1892,6 +1892,19 @@ def corpus_cases():
     r11b["comps"][0]["name"] = "calc"
     cases.append({"kind": "pair", "base": r11b, "variant": r11, "exp": {"aspect": "producer-name", "target": 1},
                   "must_build": True})
+    # known finding C16-reference-spelling-inside-fuzzy-replacement: producer `x` writes a file `x`; the consumer
+    # names the working directory, the standard output `x:output` and the file `stage0.x/x:output`
+    def pref(f, m, ab):
+        return {"kind": "comp", "file": f, "method": m, "prod": 0, "abs": ab, "content": None, "missing": False}
+    nx = {"comps": [_comp("x", 0, "exe2", [[{"l": "input"}]], out={"out.stdout": "", "x": "xx"}),
+                    _comp("sim3", 0, "/bin/cat", [[{"l": "@"}, {"r": 0}], [{"r": 2}, {"l": ")"}],
+                                                  [{"l": "a,b="}, {"r": 1}], [{"l": "-l"}]],
+                          [pref(None, "ref", False), pref("x", "output", True), pref(None, "output", False)])],
+          "order": None, "mtime": None, "loc": "w"}
+    nm = copy.deepcopy(nx)
+    nm["comps"][0]["name"] = "merge"
+    cases.append({"kind": "pair", "base": nx, "variant": nm, "exp": {"aspect": "producer-name", "target": 1},
+                  "must_build": True})
     # chain of four producers: the change of the root must reach the fuzzy hash of the last consumer
     def link(p, f="out.txt", m="ref"):
         return {"kind": "comp", "file": f, "method": m, "prod": p, "abs": False, "content": None, "missing": False}
@@ -1998,6 +2011,22 @@ class FakeCDB:
 
 
 def session_spec(rng):
+    """a world for a session (see _session_spec) in which no component writes an output file under a name that it also
+    stages in by :copy / :link (the task would write through the link into the directory of its finished producer)"""
+    while True:
+        spec = _session_spec(rng)
+        clash = False
+        for c in spec["comps"]:
+            staged = {os.path.basename(r["file"]) for r in c["refs"] if r["file"] and r["method"] in NOARG_ALL}
+            staged |= {spec["comps"][r["prod"]]["name"] for r in c["refs"]
+                       if r["kind"] == "comp" and not r["file"] and r["method"] in NOARG_ALL}
+            if staged & set(c.get("out") or {}):
+                clash = True
+        if not clash:
+            return spec
+
+
+def _session_spec(rng):
     """a world for a session: no replication, direct files under data/ (the deterministic runtime builds the experiment
     from a package), every component that is consumed has output files; often a consumer of >= 2 producers"""
     shape = rng.choice(["fanin", "fanin", "chain", "world"])
